@@ -134,6 +134,8 @@ PROPS["C08"]["not_decided"] = ["panics inside nalgebra on dimension mismatch (ex
 PROPS["C01"] = {
     "configs": BOTH,
     "rules": [
+        # the observations are stored exactly as supplied (the single-column setter reshapes N×1 in order)
+        ("R-OBS-RESHAPE", rp2.rule_obs_reshape, {}),
         # "for the current α" / "at every α": every update replaces the cache on every path (no value computed for earlier parameters survives)
         ("R-NO-HISTORY", rp2.rule_no_history, {}),
         ("R-COEF-SOLVE", rp.rule_coef_solve, {}),
@@ -155,6 +157,8 @@ PROPS["C01"] = {
 PROPS["C02"] = {
     "configs": BOTH,
     "rules": [
+        # the observations are stored exactly as supplied (the single-column setter reshapes N×1 in order)
+        ("R-OBS-RESHAPE", rp2.rule_obs_reshape, {}),
         ("R-CLONE-IDENTITY", rp2.rule_clone_identity, {"group": ('problem',)}),
         ("R-RESID-TERM", rp.rule_resid_term, {}),
         # "for the α currently in effect", over every sequence of updates: each update replaces the cache on every path
@@ -192,6 +196,8 @@ PROPS["C03"] = {
 PROPS["C04"] = {
     "configs": BOTH,
     "rules": [
+        # "residuals = W(Y − Φ(α̂)Ĉ)": the stored data are W·Y, every column
+        ("R-DATA-WEIGHT-ONCE", rp2.rule_data_weight_once, {}),
         ("R-FIT-MAP", rs2.rule_fit_map, {}),
         ("R-INTO-IDENTITY", rp2.rule_into_identity, {}),
         ("R-NO-HISTORY", rp2.rule_no_history, {}),
@@ -289,6 +295,8 @@ PROPS["C11"] = {
 PROPS["C13"] = {
     "configs": BOTH,
     "rules": [
+        # H = W·J with W the row scaling by the given weights (exactly M for Unit, exactly the diagonal product for Diagonal)
+        ("R-ROW-SCALING", rp2.rule_row_scaling, {}),
         ("R-CLONE-IDENTITY", rp2.rule_clone_identity, {"group": ('stats',)}),
         ("R-MODEL-JAC", rs2.rule_model_jac, {}),
         ("R-COVARIANCE", rs2.rule_covariance, {}),
